@@ -847,6 +847,20 @@ fn explore_state(cfg: &SimConfig, hist: &[Ev], seq_fps: &HashSet<Fp>, props: &[&
                 res.handoffs += rep.new_handoffs.len() as u64;
                 // oracles on the pair itself (e = Tick: none of the event-specific clauses applies)
                 let mut viols: Vec<Viol> = checks::check_step(&pre, Ev::Tick(0), &rep, &sim).into_iter().filter(sound_under_concurrency).collect();
+                // a cancellation inside the group: the healthy pooled connection the request held (popped for it, or
+                // delivered to its channel) and never used must survive — whatever else ran at the same time
+                for &g in &group {
+                    if let Ev::Cancel(r) = g {
+                        if !pre.handed[r as usize] && sim.snap.max_idle_per_host >= 4 {
+                            for c in [pre.held[r as usize], pre.inbox[r as usize]].into_iter().flatten() {
+                                let destroyed = world::with(|w| c != usize::MAX && pre.conn_open[c] && w.conns[c].open && !w.conns[c].busy && w.conns[c].handles == 0);
+                                if destroyed {
+                                    viols.push(Viol { prop: "C04", sub: "cancel-destroys-idle", msg: format!("cancelling r{r} before it used a connection destroyed healthy pooled c{c} (another operation was in progress at the same time)") });
+                                }
+                            }
+                        }
+                    }
+                }
                 if max_idle_seen > sim.snap.max_idle_per_host {
                     viols.push(Viol {
                         prop: "C15",
